@@ -82,15 +82,15 @@ CHECKS = {
          "serde_json's text layer (lexer, escapes, number syntax) is trusted: parse(print t) = t is not proved; serde_json's token interface is modelled, not verified.",
          "DESIGN.md section 6 C15"),
  "C11": ("Coq theorem C11_invariant: for every bundle produced by BundleBuilder::build / new_std_payload_bundle that validates (and lies in the C01 "
-"domain) and EVERY finite sequence of add_canonical_block / set_payload / set_payload_block / set_crc / update_extensions calls with admissible "
+"domain) and EVERY finite sequence of add_canonical_block / set_payload / set_payload_block / set_crc (any u8 type code: unknown types 3..255 = no CRC field) / update_extensions calls with admissible "
 "arguments (any requested block number, payload, residence time, clock >= 2000), in checked and wrapping arithmetic, no call aborts and the "
 "final state satisfies Inv (unique non-zero strictly descending block numbers, exactly one payload block = number 1 = last, previous-node / "
 "bundle-age / hop-count at most once, validate = Ok, well-formed), the payload read back is the one most recently set, and to_cbor/from_cbor "
-"round-trips (via C01); proved by one preservation lemma per mutator (C11_step) and induction over the operation list; C11_start / "
+"round-trips (via C01, and via C11_roundtrip_unknown_crc on the domain extended to unknown CRC types, wf_bundle_u); proved by one preservation lemma per mutator (C11_step) and induction over the operation list; C11_start / "
 "C11_builder_build / C11_std_bundle show the builders establish the start state. K-ops channel: all operation-kind sequences <= 3 (thorough 4) "
-"over 11 kinds with boundary arguments + random sequences <= 8 in debug and release builds, Inv evaluated by an independent Python oracle on "
+"over 15 kinds with boundary arguments + random sequences <= 8 in debug and release builds, Inv evaluated by an independent Python oracle on "
 "the implementation's bundle after every step.",
-"start state must be inside the C01 domain (validate alone accepts CanonicalData::Unknown under a known block type, which does not round-trip: "
+"start state must be inside the C01 domain extended to unknown CRC types (validate alone accepts CanonicalData::Unknown under a known block type, which does not round-trip: "
 "C11_ex_unknown_typed); admissible arguments = Model/OpSeq.v op_ok; clock >= 2000-01-01.", "DESIGN.md section 6 C11"),
  "C12": ("Coq theorems C12_record_roundtrip (every normal-form administrative record — status reports with any number of status items of the three "
          "normal kinds, u32 reason, dtn/ipn/none source, u64 timestamp, optional fragment fields; unknown records with code != 1 and opaque content "
